@@ -591,6 +591,10 @@ func replayFn(c *mc.Ctx, raw json.RawMessage) (string, bool) {
 
 func checkExpr(c *mc.Ctx, root *E, space string) {
 	text := root.Text()
+	if !magnitudeOK(root) {
+		c.Inc("skipped_operands_out_of_magnitude_bounds")
+		return
+	}
 	c.Inc("evaluations")
 	c.Inc("expressions_" + space)
 	sx, ok := parseLegacy(text)
@@ -672,12 +676,12 @@ func run(c *mc.Ctx) {
 				}
 				for r := 0; r < nrot; r++ {
 					idx++
-					if !c.Mine(idx) {
-						continue
-					}
-					if idx%512 == 0 && c.Expired() {
+					if idx%4096 == 0 && c.Expired() {
 						c.Cap(fmt.Sprintf("time budget reached in the nesting space at depth %d; all smaller depths were covered completely", depth))
 						return
+					}
+					if !c.Mine(idx) {
+						continue
 					}
 					root := fill(shape, r)
 					checkExpr(c, root, fmt.Sprintf("depth%d", depth))
